@@ -126,9 +126,11 @@ static inline int sline_empty(struct sline *sl)
     return sl->len == 0;
 }
 
+// Number of characters that still fit. One byte of the buffer is reserved
+// for the terminator written by sline_getline (same bound as sline_putchar).
 static inline int sline_avail(struct sline *sl)
 {
-    return sl->cap - sl->len;
+    return sl->cap - 1 - sl->len;
 }
 
 static inline int sline_size(struct sline *sl)
